@@ -46,6 +46,7 @@ def run(chk):
     chk.rule("R2", "the source-table leaf branch assigns every component returned by the compiler")
     chk.rule("R3", "polars.compile_ast and SqlImpl.compile_ast compute the same visible-column and grouping sequence per verb")
     chk.rule("R4", "the Polars back end has an implementation for every catalogue operator that can be dispatched")
+    chk.rule("E2E", "end-to-end static simulation of the SQL side: verbs -> AST -> interpreted Cache / subquery guards -> interpreted SqlImpl.build_select on every verb sequence up to the bound; the statement is read back clause by clause (select list, WHERE / HAVING, GROUP BY, ORDER BY, LIMIT / OFFSET, subquery nesting) and compared with the reference automaton; no internal error")
     chk.rule("R5", "SqlImpl.export names the result columns after the compiled select, paired strictly with the metadata")
 
     verbs = sym.verb_classes()
@@ -144,6 +145,10 @@ def run(chk):
     woc = [c for c in calls_in(cq) if isinstance(c.func, ast.Attribute) and c.func.attr == "with_only_columns"]
     chk.ob("R5", sql, cq, "compile_query projects exactly query.select, in order", len(woc) == 1 and "for uid in query.select" in norm(woc[0]) and "sqa_expr[uid]" in norm(woc[0]),
            "compile_query does not project the select list in the order of query.select")  # fmt: skip
+    from .. import pipesim as _ps
+
+    _ps.report(chk, m, "E2E", ['compile-error', 'placement', 'limit', 'order', 'select', 'shape'], depth_quick=3, depth_thorough=4, floor=1000)
+
     pol = repo.mod("backend.polars")
     pexp = pol.func("PolarsImpl.export")
     # decided by interpretation: export() is run over terms with a stub compile_ast (two columns, the first one stored under a
